@@ -559,6 +559,8 @@ fn ops(m: &Model, ctx: &mut Ctx) {
                 Some(Val::Opaque(_)) => Some(Ok(Val::Unit)),
                 _ => None,
             },
+            // the index table (character_by_index) is not part of the denotation: opaque wherever it is created
+            "BTreeMap::new" => Some(Ok(Val::Opaque("character_by_index".into()))),
             ".append" => match (args.first(), args.get(1)) {
                 (Some(Val::Opaque(_)), _) => Some(Ok(Val::Unit)),
                 _ => None,
